@@ -380,7 +380,7 @@ class Interp:
                 raise Unsupported("iteration over an array")
             if not isinstance(it, (list, tuple, range, str)):
                 raise Unsupported(f"for over {type(it).__name__}")
-            if len(it) > 64:
+            if len(it) > 4096:
                 raise Unsupported("long loop")
             for x in it:
                 self.assign(st.target, x, env, st)
@@ -1000,6 +1000,17 @@ class Interp:
             if fn is None:
                 raise Unsupported("unknown maths function " + name)
             return self.call_function(fn, args, kwargs, "maths." + name, False)
+        if fsrc in ("itertools.product", "product") and args and all(
+                isinstance(a, (range, list, tuple)) for a in args):
+            import itertools as _it
+            rep_ = kwargs.get("repeat", 1)
+            out = list(_it.product(*[list(a) for a in args], repeat=_as_int(rep_)))
+            if len(out) > 4096:
+                raise Unsupported("long product")
+            return out
+        if fsrc == "np.ndindex" and all(isinstance(a, (int, Fraction)) for a in args):
+            import itertools as _it
+            return list(_it.product(*[range(_as_int(a)) for a in args]))
         if fsrc.startswith("np."):
             return self.np_call(fsrc[3:], args, kwargs, node)
         if fsrc.startswith("sp."):
